@@ -58,7 +58,17 @@ RangeLaw(B) == \A lo \in -B..B, hi \in -B..B, st \in (-B..B) \ {0} :
 
 \* classical predicates on the innermost loop value i (0 outside loops): 0 False, 1 True, 2 i even, 3 i > 0
 Inner(iv) == IF iv = <<>> THEN 0 ELSE iv[1]
-Pred(code, iv) == CASE code = 0 -> FALSE [] code = 1 -> TRUE [] code = 2 -> Inner(iv) % 2 = 0 [] OTHER -> Inner(iv) > 0
+\* codes >= 4 are NUMBER-valued predicates (Python ints / floats, as in `if n % 3: ... elif count: ...`).  PredNum2 is twice
+\* the value (so that halves stay integers): 4 int i % 3 | 5 int i | 6 int -1 | 7 int 3 | 8 int 0 | 9 float 0.5 |
+\* 10 float -1.0 | 11 float 0.0 | 12 float 2.0 | 13 int 2 - i | 14 float i / 2 (% is floor-mod in Python as in TLA+)
+PredNum2(code, iv) ==
+  CASE code = 4 -> 2 * (Inner(iv) % 3) [] code = 5 -> 2 * Inner(iv) [] code = 6 -> -2 [] code = 7 -> 6 [] code = 8 -> 0
+    [] code = 9 -> 1 [] code = 10 -> -2 [] code = 11 -> 0 [] code = 12 -> 4 [] code = 13 -> 2 * (2 - Inner(iv)) [] OTHER -> Inner(iv)
+\* truth value testing (language reference, "Truth Value Testing"): of the numbers exactly the zeros are false - the
+\* magnitude and the sign of a non-zero predicate are irrelevant to which branch of if/elif/else runs
+Truthy2(v2) == v2 # 0
+Pred(code, iv) == CASE code = 0 -> FALSE [] code = 1 -> TRUE [] code = 2 -> Inner(iv) % 2 = 0 [] code = 3 -> Inner(iv) > 0
+                    [] OTHER -> Truthy2(PredNum2(code, iv))
 
 (* ----------------------------------------------------------------------- *)
 (* Flat: the primitive actions Python executes, in order                   *)
